@@ -621,9 +621,60 @@ func genJunctionCase(rr *h.Rand) schedCase {
 	return cs
 }
 
+// genCloseCase: 2-4 registered subscribers, some of them already ended (disconnected, or overflowed with a
+// small buffer) but not yet removed from the list, then Close concurrently with other operations: C15's
+// "every subscriber registered before the close began has its stream ended".
+func genCloseCase(rr *h.Rand) schedCase {
+	cs := schedCase{Kind: h.Pick(rr, []string{"bolt", "local"}), Cap: h.Pick(rr, []int{1, 2, 1000})}
+	ph := schedPhase{}
+	ns := 2 + rr.Intn(3)
+	for s := 0; s < ns; s++ {
+		ph.Subs = append(ph.Subs, schedSub{Topics: []int{rr.Intn(2)}, Req: "-"})
+		ph.Pre = append(ph.Pre, schedOp{Op: "add", Sub: s})
+	}
+	nextID := 1
+	if cs.Cap < 1000 && rr.Bool() { // the subscribers of topic 0 overflow
+		for k := 0; k <= cs.Cap; k++ {
+			ph.Pre = append(ph.Pre, schedOp{Op: "dispatch", ID: nextID, Topic: 0})
+			nextID++
+		}
+	}
+	for s := 0; s < ns-1; s++ {
+		if rr.Chance(1, 3) {
+			ph.Pre = append(ph.Pre, schedOp{Op: "disconnect", Sub: s})
+		}
+	}
+	ph.Ops = []schedOp{{Op: "close"}}
+	for k := rr.Intn(3); k > 0; k-- {
+		switch rr.Intn(4) {
+		case 0:
+			ph.Ops = append(ph.Ops, schedOp{Op: "dispatch", ID: nextID, Topic: rr.Intn(2)})
+			nextID++
+		case 1:
+			ph.Ops = append(ph.Ops, schedOp{Op: "disconnect", Sub: rr.Intn(ns)})
+		case 2:
+			ph.Ops = append(ph.Ops, schedOp{Op: "remove", Sub: rr.Intn(ns)})
+		default:
+			ph.Ops = append(ph.Ops, schedOp{Op: "list"})
+		}
+	}
+	for k := 0; k < 40; k++ {
+		t := rr.Intn(len(ph.Ops))
+		for b := 1 + rr.Intn(6); b > 0; b-- {
+			ph.Schedule = append(ph.Schedule, t)
+		}
+	}
+	cs.Phases = []schedPhase{ph}
+
+	return cs
+}
+
 func genSchedCase(rr *h.Rand) schedCase {
 	if rr.Chance(1, 4) {
 		return genJunctionCase(rr)
+	}
+	if rr.Chance(1, 6) {
+		return genCloseCase(rr)
 	}
 	cs := schedCase{Kind: h.Pick(rr, []string{"bolt", "bolt", "local"}), Cap: h.Pick(rr, []int{1, 2, 3, 1000})}
 	if cs.Kind == "bolt" && rr.Chance(1, 3) {
